@@ -19,7 +19,23 @@ CONFIG = {
              "commands l L h H v V; relative and absolute), curved (turn, arc incl. ellipses, cubic, cubic_smooth, quadratic, quadratic_smooth, "
              "bezier, interpolation, parametric, commands c C s q t a A E) and mixed; optional sub-tolerance step (remove_overlapping_points) and "
              "empty call. Per path: one `counts` case (counts after every call, model replay), per element one `region` / `region_flagged` case "
-             "(~140 sample points) and one `center` case, for half of the paths one `gds` and one `oas` case. quick 160 paths, thorough 3000. "
+             "(~140 sample points) and one `center` case, for half of the paths one `gds` and one `oas` case. Per element also one `fn` case: the same spine / widths / "
+             "offsets with the user-callback styles, against a twin path with built-in styles; own random stream, so the cases above are the same "
+             "with and without it. EndType::Function always: the callback reproduces flush / half-width / extended caps from its arguments or "
+             "returns a polygonal cap of 1..7 points (independently per end; 2-3 points the flush region, 4-7 the extended region with the extra "
+             "points collinear, 1 point without twin); JoinType::Function for 70 % (natural / miter / bevel recomputed from the callback's "
+             "arguments with the library's segments_intersection); BendType::Function for 80 % of the circular-bend elements and 30 % of the "
+             "others (the library's Curve::arc, or an arc polyline with a point count of our own). Callbacks record arguments and results; "
+             "P-lines: flexpath-fn-end-args / -join-args / -bend-args (every argument against the cap points, edge points, directions, centre, "
+             "width, radii, angles recomputed in long double from the spine / half-width / offset arrays; which sides and vertices are called, in "
+             "which order), flexpath-fn-end-order / -join-splice / -bend-splice (every returned point present bit for bit in the outline as one "
+             "run: first cap at index 0 in callback order, right-side runs forwards, last cap after the right side in callback order, left-side "
+             "runs reversed), flexpath-fn-twin (outline walked side by side with the built-in twin's: equal within 1e-9 vertex for vertex, modulo "
+             "the known extra cap points; own-count bends share end points and the twin's arc lies on the requested circle). For ~20 % of the "
+             "fn cases whose vertex list differs from the twin's (3 % of the others) a `region` / `region_flagged` case (payload g=s:i:fn:e) "
+             "puts the callback outline through the extracted oracle with the twin's expectations. quick 160 paths (~400 fn cases, ~45 fn "
+             "region cases), thorough 3000 (~7600 fn). Straight-through vertices with a bend (direction decided by the last bit) and elements "
+             "with an almost parallel corner (1e-10 < |t0 x t1| < 1e-6) keep the order / twin oracles but not the argument oracle. "
              "non-trivial: a region case, or a counts case with at least two calls; distinct = distinct payload"),
     "trusted": ["harness recomputes the centre line / bend decisions / radii in long double (specification side) from the implementation's arrays",
                 "doubles are rounded to the 2^-30 grid (error <= 2^-31) before the exact oracle runs",
@@ -40,6 +56,8 @@ def nontrivial(kind, payload, r):
         return True
     if kind == "counts":
         return payload.count(":") >= 3      # g=seed:idx plus at least two w:k calls
+    if kind == "fn":
+        return True                         # user-callback end / join / bend cases: every one calls at least the end function twice
     return False
 
 
